@@ -23,7 +23,7 @@ fn has_collapse(d: &crate::registry::Dyn) -> bool {
 }
 
 fn ex_len(t: Tier) -> u64 {
-    t.pick(6, 9, 3)
+    t.pick(7, 9, 3)
 }
 
 fn jobs(plan: &Plan) -> Vec<Job> {
@@ -350,8 +350,10 @@ fn nested_growth<E: Entry<V = Vec<String>>>(ctx: &mut Ctx) {
     }
     let after = live.heap().unwrap();
     let grew = after.used.saturating_sub(before.used);
-    // at most one (usize, usize) index entry per element plus one offset may be added
-    let index_budget = w * 16 + 16;
+    // at most one (usize, usize) index entry per element plus one offset may be added; the
+    // budget is generous (2.5x) so that an inaccuracy of heap_size itself (C18's business) is
+    // not reported here - the payload is 100-200 bytes per element, far above it
+    let index_budget = w * 40 + 64;
     if grew > index_budget {
         ctx.fail(
             "nested-collapsed-push-stored",
